@@ -111,9 +111,12 @@ CHECKS = {
              "order one lower, tabulated alpha_/gamma_ row sums consistent, |R(inf)| <= 2^-40 (2e-5 for the 4-stage set), "
              "packed indices in range, default controls legal. The domain is finite, so this is a proof about the "
              "tables the code contains now.",
-        note="PARTIAL: the sentence about global accuracy of Converged results is an empirical floating-point statement; "
-             "it is measured, not proved (see DESIGN 6 C08). Trusted: translator (dump_tables.cpp + params2coq.py), Coq kernel + vm_compute.",
-        technique="Coq proof by computation (vm_compute over Q) on tables regenerated from the source by a translator",
+        note="PARTIAL: the sentence about global accuracy of Converged results is an empirical floating-point statement; it is "
+             "measured by the implementation oracle of the `acc` scenario, not proved: the chain A->B->C on 1..3L+1 cells, all "
+             "layouts and parameter sets, Rosenbrock against the Bateman solution (error <= (10 + accepted steps)(atol + rtol|y|)), "
+             "backward Euler against the composition of closed-form implicit-Euler maps for the step sizes its controller "
+             "prescribes. Trusted: translator (dump_tables.cpp + params2coq.py), Coq kernel + vm_compute, the harness.",
+        technique="Coq proof by computation (vm_compute over Q) on tables regenerated from the source by a translator + accuracy oracle on the assembled solvers",
         ref="6 C08"),
     "C09": dict(
         text="Coq (every commutative ring): every conservation law of the stoichiometry annihilates the forcing the model "
@@ -182,14 +185,18 @@ CHECKS = {
              "of the sizes before r) times r's parameterised reactants (C15_rate_constant_association_*). Tie: the real "
              "builder / State setters / CalculateRateConstants with probe rate constants of 0-3 parameters mixed with "
              "built-in kinds vs the extracted model, whole storage compared exactly; oracle recomputes every value from the inputs.",
-        note="PARTIAL: that each built-in formula equals its documented expression is not compared (libm); it is an oracle in the theorem.",
-        technique="Coq proof (offset walking, both layouts) + extracted-model differential tie with probe rate constants",
+        note="PARTIAL: that each built-in formula equals its documented expression involves libm (exp/pow/log10): it is opaque in "
+             "the theorem and validated by the `ratef` family - every built-in type against a long-double transcription of its "
+             "formula at random parameters (negative exponents included) and conditions, 1e-11 relative.",
+        technique="Coq proof (offset walking, both layouts) + extracted-model differential tie with probe rate constants + formula oracle",
         ref="6 C15"),
     "C17": dict(
-        text="Coq: over every sequence of GetState / copy / move / set / solve operations (any length, any number of "
-             "States) no operation reaches undefined behaviour and a solve reads its own State's data "
-             "(C17_no_sequence_of_copies_moves_and_solves_is_undefined, invariant by induction over the sequence); the "
-             "pre-repair behaviour is refuted by a 3-operation witness (C17_sliced_copy_refuted). Tie: the same "
+        text="Coq: over every sequence of GetState / copy / move / set / solve / solve-with-another-parameter-set operations "
+             "(any length, any number of States, any stage counts) no operation reaches undefined behaviour and a solve reads "
+             "its own State's data (C17_no_sequence_of_copies_moves_and_solves_is_undefined, invariant by induction over the "
+             "sequence); the two pre-repair behaviours are refuted by witnesses (C17_sliced_copy_refuted; "
+             "C17_more_stages_than_stage_vectors_refuted: a State of a three-stage solver solved with the six-stage set "
+             "overran its stage-vector list, fix: 49f2335). Tie: the same "
              "sequences on the real State/Solver classes under ASan+UBSan: per-operation outcome tokens equal the "
              "model's (a crash is the token UB:<kind>); oracle: every solve bit-identical to a fresh State, other States "
              "untouched. The defect found (copy sliced the scratch object) is fixed in the repository (fix: c55c0fb).",
